@@ -134,15 +134,24 @@ def parseBlob : Nat → Bytes → Out Bytes
   | f + 1, 92 :: 120 :: rest =>
     match rest with
     | a :: b :: rest' =>
-      -- `&ss[..2]` must end on a char boundary
-      if utf8Len a = 1 ∧ utf8Len b ≠ 1 then .panic
-      else if utf8Len a > 2 then .panic
+      -- `ss.get(..2)` must end on a char boundary (`InvalidChar` otherwise)
+      if utf8Len a = 1 ∧ utf8Len b ≠ 1 then .err
+      else if utf8Len a > 2 then .err
       else match parseHex2 a b with
         | none => .err
         | some v => match parseBlob f rest' with
           | .ok r => .ok (UInt8.ofNat v :: r)
           | e => e
     | _ => .err
+  -- the inverse of Display's `\\` and `''`
+  | f + 1, 92 :: 92 :: rest =>
+    match parseBlob f rest with
+    | .ok r => .ok (92 :: r)
+    | e => e
+  | f + 1, 39 :: 39 :: rest =>
+    match parseBlob f rest with
+    | .ok r => .ok (39 :: r)
+    | e => e
   | f + 1, b :: rest =>
     if utf8Len b ≠ 1 then .err
     else match parseBlob f rest with
@@ -215,13 +224,18 @@ def fmt2 (v : Int) : Bytes := padZero 2 (natDigits v.natAbs)
 
 def fmtYmd (y m d : Int) : Bytes := fmtYear y ++ [45] ++ fmt2 m ++ [45] ++ fmt2 d
 
-/-- `Date::fmt`: `NaiveDate::from_num_days_from_ce_opt(..).unwrap()` then `%Y-%m-%d`;
-the i32 addition `self.0 + UNIX_EPOCH_DAYS` overflows (panic) above the range anyway. -/
+/-- `<date out of range: N days>` -/
+def dateFallback (d : Int) : Bytes :=
+  [60, 100, 97, 116, 101, 32, 111, 117, 116, 32, 111, 102, 32, 114, 97, 110, 103, 101, 58, 32] ++
+    intDigits d ++ [32, 100, 97, 121, 115, 62]
+
+/-- `Date::fmt`: `checked_add(UNIX_EPOCH_DAYS)` and `NaiveDate::from_num_days_from_ce_opt`, then
+`%Y-%m-%d`; a day count chrono cannot represent prints as a fallback text (it used to panic). -/
 def displayDate (d : Int) : Out Bytes :=
   if dateInRange d then
     let (y, m, dd) := civilFromDays d
     .ok (fmtYmd y m dd)
-  else .panic
+  else .ok (dateFallback d)
 
 def isWs (b : UInt8) : Bool := b = 32 || (9 ≤ b.toNat && b.toNat ≤ 13)
 
@@ -286,14 +300,24 @@ def fmtFrac (msPart : Int) : Bytes :=
 def fmtHms (secOfDay : Int) : Bytes :=
   fmt2 (secOfDay / 3600) ++ [58] ++ fmt2 (secOfDay / 60 % 60) ++ [58] ++ fmt2 (secOfDay % 60)
 
+/-- `<timestamp out of range: N us>` -/
+def tsFallback (us : Int) : Bytes :=
+  [60, 116, 105, 109, 101, 115, 116, 97, 109, 112, 32, 111, 117, 116, 32, 111, 102, 32, 114, 97,
+   110, 103, 101, 58, 32] ++ intDigits us ++ [32, 117, 115, 62]
+
+/-- `to_naive_utc`: the i64 subtraction does not overflow and chrono can represent the instant -/
+def tsPrintable (us : Int) : Bool :=
+  !(decide (us - thirtyYearsUs < i64Lo)) && tsMsInRange (Int.tdiv (us - thirtyYearsUs) 1000)
+
 /-- `Timestamp::fmt`: `(us - 30y) / 1000` (i64, truncating; the subtraction overflows below
-`i64::MIN + 30y`), `from_timestamp_millis` (error → `to_string` panics), then `naive_sys_fmt`:
+`i64::MIN + 30y`), `from_timestamp_millis`; unrepresentable values print a fallback text (they used to panic);
+then `naive_sys_fmt`:
 years < 0 as `-year … BC`, otherwise chrono's `NaiveDateTime` Display. -/
 def displayTimestamp (us : Int) : Out Bytes :=
-  if us - thirtyYearsUs < i64Lo then .panic
+  if us - thirtyYearsUs < i64Lo then .ok (tsFallback us)
   else
     let ms := Int.tdiv (us - thirtyYearsUs) 1000
-    if !tsMsInRange ms then .panic
+    if !tsMsInRange ms then .ok (tsFallback us)
     else
       let day := ms / 86400000
       let msOfDay := ms % 86400000
@@ -305,11 +329,13 @@ def displayTimestamp (us : Int) : Out Bytes :=
       else
         .ok (fmtYmd y m d ++ [32] ++ time ++ fmtFrac (msOfDay % 1000))
 
-/-- `TimestampTz::fmt` with the (only) system offset `+00:00` -/
+/-- `TimestampTz::fmt` with the (only) system offset `+00:00` (no suffix on the fallback text) -/
 def displayTimestampTz (us : Int) : Out Bytes :=
-  match displayTimestamp us with
-  | .ok t => .ok (t ++ [32, 43, 48, 48, 58, 48, 48])
-  | e => e
+  if tsPrintable us then
+    match displayTimestamp us with
+    | .ok t => .ok (t ++ [32, 43, 48, 48, 58, 48, 48])
+    | e => e
+  else .ok (tsFallback us)
 
 /-- `%Y-%m-%d %H:%M:%S` prefix → (y, m, d, H, M, S, rest) -/
 def scanYmdHms (s : Bytes) : Option (Int × Int × Int × Int × Int × Int × Bytes) :=
